@@ -224,6 +224,30 @@ def _compare_outcomes(ref, got):
 # query families
 
 
+def own_predecessor(query):
+    """(predecessor, remainder) of a parsed query, computed from its structure (not by the library's own
+    Query.predecessor, which is part of what is being checked): the remainder is the trailing file name, else the last
+    action of the last transformation segment; the predecessor keeps everything else, the leading '/' included."""
+    from liquer.parser import Query, TransformQuerySegment
+
+    segs = list(query.segments)
+    if not segs or not isinstance(segs[-1], TransformQuerySegment):
+        return None, None
+    last = segs[-1]
+    acts = list(last.query)
+    if last.filename is not None:
+        rest = TransformQuerySegment(header=last.header, query=acts, filename=None)
+        rem = TransformQuerySegment(header=last.header, query=[], filename=last.filename)
+    elif acts:
+        rest = TransformQuerySegment(header=last.header, query=acts[:-1], filename=None)
+        rem = TransformQuerySegment(header=last.header, query=[acts[-1]], filename=None)
+    else:
+        return Query(segs[:-1], absolute=query.absolute), None
+    if len(rest.query) == 0:
+        return Query(segs[:-1], absolute=query.absolute), rem
+    return Query(segs[:-1] + [rest], absolute=query.absolute), rem
+
+
 def prefixes_of(q):
     """canonical texts of all proper prefixes (and the query itself) of a transformation query text"""
     from liquer.parser import parse
@@ -235,7 +259,7 @@ def prefixes_of(q):
         return out
     while p is not None and not p.is_empty():
         out.append(p.encode())
-        p, _ = p.predecessor()
+        p, _ = own_predecessor(p)
     return out
 
 
@@ -387,7 +411,7 @@ def simulate(env, q, cached, admits):
         key = query.encode()
         if key in cached:
             return
-        p, r = query.predecessor()
+        p, r = own_predecessor(query)
         if p is not None and not p.is_empty():
             ev(p)
         if r is None:
